@@ -151,8 +151,19 @@ def real_signal(ctx):
                     me = state["n"]
                     state["n"] += 1
                 if me == k:
-                    # make sure the coordinator is parked in queue.join() (all workers spawned)
-                    time.sleep(0.05)
+                    # make sure the coordinator is parked in queue.join() (all workers spawned): look at its stack
+                    import sys as _sys
+                    deadline = time.monotonic() + 5
+                    while time.monotonic() < deadline:
+                        f_ = _sys._current_frames().get(threading.main_thread().ident)
+                        names = []
+                        while f_ is not None and len(names) < 6:
+                            names.append(f_.f_code.co_name)
+                            f_ = f_.f_back
+                        if "join" in names and "run_function_on_graph" in names:
+                            break
+                        time.sleep(0.005)
+                    time.sleep(0.02)
                     state["sig"] = time.monotonic()
                     signal.pthread_kill(threading.main_thread().ident, signal.SIGINT)
                 time.sleep(0.02)
@@ -204,6 +215,12 @@ def real_signal(ctx):
                 "log_index_when_stop_was_set": tstop}
         starts = [i for kind, i, _ in snap if kind == "start"]
         ends = [i for kind, i, _ in snap if kind == "end"]
+        if outcome.startswith("interrupted") and not tstop:
+            # the handler never ran: the interrupt landed before the coordinator reached queue.join(), i.e. in the start-up
+            # window of finding F6 (reported by spawn_window under its own key) - not what this scenario measures
+            ctx.count("signal_landed_in_spawn_window", 1)
+            time.sleep(0.3)
+            continue
         if outcome == "returned" and len(starts) == ncalls:
             ctx.count("signal_arrived_after_completion", 1)
         elif outcome != "interrupted":
